@@ -349,3 +349,41 @@ def indices(O):
     from . import C06
     W = dri.WithRep(O, rep())
     C06.build_indices(W, "Bidirectional")
+
+
+@obligation("C11/scope-set-is-the-framed-map", profiles=("dev",),
+            desc="FramedSet (the parser's set of names in scope) keeps no structure of its own: push_frame / pop_frame / insert / "
+                 "contains are each exactly one call of the FramedMap operation (whose frame kernels C18 decides) - so a name "
+                 "shadowed in an inner block is in scope again after the block")
+def scope_set_is_framed_map(O):
+    R = rep()
+    want = {"push_frame": "push_frame", "pop_frame": "pop_frame", "insert": "set", "contains": "get"}
+    n = 0
+    for name, f in O.mir.funcs.items():
+        from ..sym import short_name
+        sn = short_name(name)
+        if "framed_map" not in sn or "{closure" in sn:
+            continue
+        meth = sn.split("::")[-1]
+        if meth not in want or not f.params or "FramedSet" not in f.params[0][1]:
+            continue
+        n += 1
+        eng = O.engine()
+        eng.auto_inline = False
+        for p in O.explore(eng, f):
+            if p.outcome != "return":
+                R.fail(O, p, "FramedSet::%s: %s %s" % (meth, p.outcome, p.detail))
+                continue
+            import re as _re
+            calls = []
+            for e in p.trace:
+                if e.kind != "call" or not (e.crate or "FramedMap" in e.norm or "HashSet" in e.norm or "Vec" in e.norm):
+                    continue
+                mm = _re.search(r"FramedMap(?:::<[^>]*>)?::(push_frame|pop_frame|set|get)\b", e.norm)
+                calls.append(mm.group(1) if mm else e.norm.split("::")[-1])
+            if calls != [want[meth]]:
+                R.fail(O, p, "FramedSet::%s performs %s instead of FramedMap::%s" % (meth, calls, want[meth]))
+            if p.state.extra.get("writes"):
+                R.fail(O, p, "FramedSet::%s stores into the set itself (%s)" % (meth, p.state.extra["writes"][0][1]))
+    if n < 4:
+        raise LookupError("FramedSet does not have the four operations push_frame / pop_frame / insert / contains over a FramedMap (%d found)" % n)
